@@ -939,7 +939,18 @@ def gen_store_fns():
         raise TranslateError(f"block_store.rs: {e}")
 
 
+def gen_addr_fns():
+    sys.path.insert(0, os.path.dirname(os.path.abspath(__file__)))
+    import translate_addr
+    try:
+        return translate_addr.gen(strip_comments(read("node/libs/roles/src/validator/messages/discovery.rs")),
+                                  strip_comments(read("node/components/network/src/gossip/validator_addrs.rs")))
+    except translate_addr.TErr as e:
+        raise TranslateError(str(e))
+
+
 TARGETS = {
+    "AddrFns": gen_addr_fns,
     "StoreFns": gen_store_fns,
     "Thresholds": gen_thresholds,
     "NoiseConst": gen_noise_const,
